@@ -1,7 +1,7 @@
 """C04 — text that is not diff/blame/grep output passes through byte-for-byte (structural part)."""
 from . import _e1common as E
 from .. import rules as Ru
-from ..facts import callee_of
+from ..facts import callee_of, callee_full
 
 EXPLANATION = (
     "Three structural clauses. PASS (E1 pass-through mode): from every reachable line-start state whose State is Unknown / CommitMeta / "
@@ -108,6 +108,38 @@ def ingest_rule(F, res, ingest_fn):
                     samples.append('%s bb%d line<-raw_line' % (fn.split('::')[-1], bb))
                 else:
                     res.violate('INGEST', 'fn=%s;field=line;ord=%d' % (fn, n), 'the stripped line is not derived from raw_line', where=F.bodies[fn]['mir']['span']['at'])
+    # a position found by searching a sub-slice of the line is relative to that sub-slice: it may only be used to cut the whole line
+    # after the sub-slice's start has been added back
+    for fn in sorted(fns):
+        for i, c in F.calls(fn):
+            r = callee_of(c)
+            if not (r.endswith('::index') and ('for str>' in r or 'String as std::ops::Index' in r or 'Range' in callee_full(c))):
+                continue
+            if not any(rr[0] == 'param' and rr[2] and rr[2][-1] == 'raw_line' for rr in F.trace(fn, c['args'][0])):
+                continue
+            if any(rr[0] == 'call' and rr[1].endswith('::index') for rr in F.trace(fn, c['args'][0])):
+                continue     # the receiver is itself a sub-slice
+            pl = c['args'][1].get('move') or c['args'][1].get('copy')
+            rng = None
+            for (dbb, kind, payload) in (F.local_defs(fn).get(pl['l'], []) if pl and not pl['p'] else []):
+                if kind == 'assign' and payload[0] == 'agg':
+                    rng = payload
+            if rng is None:
+                continue
+            for o in rng[2]:
+                roots = F.trace(fn, o)
+                finds = [rr for rr in roots if rr[0] == 'call' and rr[1].endswith(('::rfind', '::find', '::position', '::rposition'))]
+                if not finds:
+                    continue
+                n += 1
+                rel = any(any(x[0] == 'call' and x[1].endswith('::index') for x in F.trace(fn, f_[4]['args'][0])) for f_ in finds)
+                compensated = any(rr[0] == 'binop' and rr[1].replace('WithOverflow', '') == 'Add' and not all(v[0] == 'int' for v in F.operand_literals(fn, o)) for rr in roots) and \
+                    any(rr[0] == 'binop' and rr[1].replace('WithOverflow', '') == 'Add' for rr in roots) and len([rr for rr in roots if rr[0] in ('call', 'param', 'local')]) >= 2
+                if rel and not compensated:
+                    res.violate('INGEST', 'fn=%s;relative-position' % fn, 'raw_line is cut at a position that was found by searching a sub-slice of it, without adding the sub-slice\'s start: '
+                                'the wrong bytes are removed from lines longer than the searched window', where=F.span_of_call(c))
+                else:
+                    ok += 1
     res.rule('C04.INGEST', n, 3, 'writes to raw_line / line inside the ingest functions %s' % sorted(f.split('::')[-1] for f in fns), discharged=ok, samples=samples)
 
 
